@@ -123,16 +123,20 @@ def reshape_falsy(r0, r1, r2, k0, k1, k2, v0, v1, v2):
 
 @cond('C15.validate', quick=120,
       bounds='SELECT r, k, sum(v) AS s [hidden GROUP BY / ORDER BY targets] PIVOT BY p, q with p, q symbolic positions in '
-             '-1..6: accepted iff both are in 1..3 (visible targets), distinct, and the second one is a grouping column',
-      symbolic='both positions', enumerated='with / without hidden targets')
-def validate(p: int, q: int, hidden: bool) -> str:
+             '-1..6, each spelled as a position or as the name of that target (an unknown name when out of range): accepted iff '
+             'both are in 1..3 (visible targets), distinct whatever the spelling, and the second one is a grouping column',
+      symbolic='both positions', enumerated='with / without hidden targets; name / position spelling of each reference')
+def validate(p: int, q: int, hidden: bool, pname: bool, qname: bool) -> str:
     p = enum_int(p, -1, 6)
     q = enum_int(q, -1, 6)
+    names = ('r', 'k', 's')
+    pref = (col(names[p - 1]) if 1 <= p <= 3 else col('zz')) if pname else p
+    qref = (col(names[q - 1]) if 1 <= q <= 3 else col('zz')) if qname else q
     conn = connect(t=HTable('t', COLUMNS, [(0, 1, 2)]))
     targets = [target(col('r')), target(col('k')), target(func('sum', col('v')), 's')]
     order = [ast.OrderBy(func('max', col('v')), ast.Ordering.ASC)] if hidden else None
     stmt = sel(targets, 't', group_by=ast.GroupBy([col('r'), col('k')], None), order_by=order,
-               pivot_by=ast.PivotBy([p, q]))
+               pivot_by=ast.PivotBy([pref, qref]))
     want = 1 <= p <= 3 and 1 <= q <= 3 and p != q and q in (1, 2)
     try:
         conn.compile(stmt)
